@@ -611,6 +611,19 @@ func (u *Unit) evalComposite(e *ast.CompositeLit, st *State, addr bool) Val {
 		mdKey := "MD:" + ks
 		mvKey := "MV:" + ks + "|" + vs
 		hd := u.heapTerm(st, mdKey, u.sortOfHeapKey(mdKey))
+		if u.globalMode {
+			dom := "((as const (Array " + ks + " Bool)) false)"
+			hv := u.heapTerm(st, mvKey, u.sortOfHeapKey(mvKey))
+			for _, el := range e.Elts {
+				kv := el.(*ast.KeyValueExpr)
+				k := u.convert(u.evalExprExpect(kv.Key, ut.Key(), st), ut.Key(), st)
+				v := u.convert(u.evalExprExpect(kv.Value, ut.Elem(), st), ut.Elem(), st)
+				dom = "(store " + dom + " " + k.T + " true)"
+				u.reg.axiom(eq("(select (select "+hv+" "+r+") "+k.T+")", v.T))
+			}
+			u.reg.axiom(eq("(select "+hd+" "+r+")", dom))
+			return m
+		}
 		st.heap[mdKey] = "(store " + hd + " " + r + " ((as const (Array " + ks + " Bool)) false))"
 		u.heapTerm(st, mvKey, u.sortOfHeapKey(mvKey))
 		for _, el := range e.Elts {
